@@ -99,8 +99,9 @@ Proof.
   destruct (key_eqb (key_from (skey_of ps :: K) rest) (skey_of ps :: K)) eqn:E.
   - eauto.
   - destruct rest as [|x rest'].
-    + unfold key_from in E. cbn in E. rewrite key_eqb_refl in E. discriminate.
-    + apply IH. discriminate.
+    + change (key_from (skey_of ps :: K) []) with (skey_of ps :: K) in E.
+      rewrite key_eqb_refl in E. discriminate.
+    + apply IH. intro Hx. discriminate Hx.
 Qed.
 
 Section TreeLemmas.
@@ -213,5 +214,179 @@ Section TreeLemmas.
     - rewrite find_node_cons. reflexivity.
     - destruct (key_eqb X K) eqn:E; [|reflexivity].
       apply key_eqb_eq in E. subst. exact F.
+  Qed.
+
+  (* ---------------------------------------------------------------- *)
+  (* what a lookup has followed *)
+
+  Definition node_host (t : tree) (X : key) : bool :=
+    match find_node X t with Some ni => n_host ni | None => false end.
+  Definition node_pname (t : tree) (X : key) : str :=
+    match find_node X t with Some ni => n_pname ni | None => [] end.
+
+  (* [follows t X rus]: the node [X] is reached from the root by the parts
+     [rus] (reversed: last part first), every step through a constant child
+     equal to the part or through the parametric child, of the part's kind *)
+  Fixpoint follows (t : tree) (X : key) (rus : list part) : Prop :=
+    match X, rus with
+    | [], [] => True
+    | s :: X', (k, u) :: rus' =>
+        (exists ni, find_node (s :: X') t = Some ni /\ n_host ni = k) /\
+        (s = KConst u \/ s = KParam) /\ follows t X' rus'
+    | _, _ => False
+    end.
+
+  (* the URL of a node, as Lookup spells it *)
+  Fixpoint path_of (t : tree) (X : key) : str :=
+    match X with
+    | [] => []
+    | s :: X' =>
+        path_of t X' ++ delim (node_host t X) ++
+        match s with
+        | KConst u => u
+        | KParam => [c_lbrace] ++ node_pname t X ++ [c_rbrace]
+        | KWild => star
+        end
+    end.
+
+  (* the parameters bound on the way to a node *)
+  Fixpoint params_along (t : tree) (X : key) (rus : list part) : params :=
+    match X, rus with
+    | s :: X', (_, u) :: rus' =>
+        match s with
+        | KParam =>
+            if is_brace u then params_along t X' rus'
+            else (node_pname t X, u) :: params_along t X' rus'
+        | _ => params_along t X' rus'
+        end
+    | _, _ => []
+    end.
+
+  Definition fw_ok (t : tree) (rcons : list part) (fw : wfound) : Prop :=
+    match fw with
+    | None => True
+    | Some (W, wpath, wps) =>
+        exists P rP pre,
+          W = KWild :: P /\ follows t P rP /\ rcons = pre ++ rP /\
+          find_node W t <> None /\ wpath = path_of t W /\
+          wps = params_along t P rP
+    end.
+
+  Lemma fw_ok_cons : forall t rcons fw u,
+    fw_ok t rcons fw -> fw_ok t (u :: rcons) fw.
+  Proof.
+    intros t rcons [[[W wpath] wps]|] u H; [|exact I].
+    destruct H as (P & rP & pre & H1 & H2 & H3 & H4 & H5 & H6).
+    exists P, rP, (u :: pre). subst rcons. repeat split; auto.
+  Qed.
+
+  Lemma note_wild_ok : forall t K rcons fw ps path,
+    follows t K rcons -> fw_ok t rcons fw ->
+    ps = params_along t K rcons -> path = path_of t K ->
+    fw_ok t rcons (note_wild t K path ps fw).
+  Proof.
+    intros t K rcons fw ps path HF HW Hps Hpath. unfold note_wild.
+    destruct (find_node (KWild :: K) t) as [wi|] eqn:F; [|exact HW].
+    exists K, rcons, []. repeat split; auto.
+    - rewrite F. discriminate.
+    - cbn [path_of]. unfold node_host. rewrite F. subst path. reflexivity.
+  Qed.
+
+  (* the two ways a lookup succeeds *)
+  Definition walk_result (t : tree) (rall : list part) (r : lres V) : Prop :=
+    l_val r = node_val t (l_key r) /\
+    l_norm r = trim_url (path_of t (l_key r)) /\
+    ((follows t (l_key r) rall /\ node_val t (l_key r) <> None /\
+      l_params r = params_along t (l_key r) rall)
+     \/
+     (exists P rP pre,
+        l_key r = KWild :: P /\ follows t P rP /\ rall = pre ++ rP /\
+        find_node (l_key r) t <> None /\ l_params r = params_along t P rP)).
+
+  Lemma fw_hit : forall t rcons W wpath wps pre,
+    fw_ok t rcons (Some (W, wpath, wps)) ->
+    walk_result t (pre ++ rcons) (hit t W wps wpath).
+  Proof.
+    intros t rcons W wpath wps pre H.
+    destruct H as (P & rP & pre' & H1 & H2 & H3 & H4 & H5 & H6).
+    unfold walk_result, hit; cbn. split; [reflexivity|].
+    split; [rewrite H5; reflexivity|].
+    right. exists P, rP, (pre ++ pre'). subst rcons. rewrite app_assoc.
+    repeat split; auto.
+  Qed.
+
+  Lemma child_ok_some : forall (t : tree) X k ci,
+    child_ok t X k = Some ci -> find_node X t = Some ci /\ n_host ci = k.
+  Proof.
+    intros t X k ci H. unfold child_ok in H.
+    destruct (find_node X t) as [ni|]; [|discriminate].
+    destruct (eqb (n_host ni) k) eqn:E; [|discriminate].
+    inversion H; subst. apply eqb_prop in E. auto.
+  Qed.
+
+  Lemma walk_spec : forall parts t K rcons fw ps path,
+    follows t K rcons -> fw_ok t rcons fw ->
+    ps = params_along t K rcons -> path = path_of t K ->
+    l_match (walk t K parts fw ps path) = true ->
+    walk_result t (rev parts ++ rcons) (walk t K parts fw ps path).
+  Proof.
+    induction parts as [|[k s] rest IH]; intros t K rcons fw ps path HF HW Hps Hpath HM.
+    - cbn [walk rev app] in *.
+      destruct (node_val t K) as [v|] eqn:NV.
+      + unfold walk_result, hit; cbn. split; [reflexivity|].
+        split; [rewrite Hpath; reflexivity|].
+        left. repeat split; auto. rewrite NV. discriminate.
+      + pose proof (note_wild_ok t K rcons fw ps path HF HW Hps Hpath) as HW'.
+        destruct (note_wild t K path ps fw) as [[[W wpath] wps]|].
+        * apply (fw_hit t rcons W wpath wps [] HW').
+        * discriminate.
+    - cbn [walk] in *.
+      pose proof (note_wild_ok t K rcons fw ps path HF HW Hps Hpath) as HW'.
+      set (fw' := note_wild t K path ps fw) in *.
+      cbn [rev]. rewrite <- app_assoc. cbn [app].
+      destruct (child_ok t (KConst s :: K) k) as [ci|] eqn:C1.
+      + apply child_ok_some in C1. destruct C1 as [F1 H1].
+        apply IH; auto.
+        * cbn [follows]. split; [eauto|]. split; [left; reflexivity|exact HF].
+        * apply fw_ok_cons. exact HW'.
+        * cbn [path_of]. unfold node_host. rewrite F1, H1. subst path.
+          reflexivity.
+      + destruct (child_ok t (KParam :: K) k) as [pi|] eqn:C2.
+        * apply child_ok_some in C2. destruct C2 as [F2 H2].
+          apply IH; auto.
+          -- cbn [follows]. split; [eauto|]. split; [right; reflexivity|exact HF].
+          -- apply fw_ok_cons. exact HW'.
+          -- cbn [params_along]. unfold node_pname. rewrite F2. subst ps.
+             reflexivity.
+          -- cbn [path_of]. unfold node_host, node_pname. rewrite F2, H2.
+             subst path. reflexivity.
+        * destruct (is_brace s); [discriminate|].
+          destruct fw' as [[[W wpath] wps]|]; [|discriminate].
+          apply (fw_hit t rcons W wpath wps (rev rest ++ [(k, s)])) in HW'.
+          rewrite <- app_assoc in HW'. exact HW'.
+  Qed.
+
+  Lemma walk_no_match : forall parts t K fw ps path,
+    l_match (walk t K parts fw ps path) = false ->
+    walk t K parts fw ps path = no_match.
+  Proof.
+    induction parts as [|[k s] rest IH]; intros t K fw ps path HM; cbn [walk] in *.
+    - destruct (node_val t K); [discriminate HM|].
+      destruct (note_wild t K path ps fw) as [[[W wpath] wps]|];
+        [discriminate HM|reflexivity].
+    - destruct (child_ok t (KConst s :: K) k); [apply IH; exact HM|].
+      destruct (child_ok t (KParam :: K) k); [apply IH; exact HM|].
+      destruct (is_brace s); [reflexivity|].
+      destruct (note_wild t K path ps fw) as [[[W wpath] wps]|];
+        [discriminate HM|reflexivity].
+  Qed.
+
+  Lemma lookup_parts_spec : forall t parts,
+    l_match (lookup_parts t parts) = true ->
+    walk_result t (rev parts) (lookup_parts t parts).
+  Proof.
+    intros t parts HM. unfold lookup_parts in *.
+    pose proof (walk_spec parts t [] [] None [] [] I I eq_refl eq_refl HM) as H.
+    rewrite app_nil_r in H. exact H.
   Qed.
 End TreeLemmas.
